@@ -15,11 +15,11 @@ theorem httpRepl_ne_nil {env : Env} {s s' : HttpSt} {d r : Bytes}
   unfold httpRepl at h
   split at h
   · cases h
-  · simp only [Except.ok.injEq, Prod.mk.injEq] at h
-    obtain ⟨_, h⟩ := h
-    split at h
-    · cases h; exact httpReplyBytes_ne_nil env
-    · cases h
+  · split at h
+    · simp only [Except.ok.injEq, Prod.mk.injEq, Option.some.injEq] at h
+      rw [← h.2]; exact httpReplyBytes_ne_nil env
+    · simp only [Except.ok.injEq, Prod.mk.injEq] at h
+      exact absurd h.2 (by simp)
 
 theorem sshRepl_ne_nil {d r : Bytes} (h : sshRepl d = .ok (some r)) : r ≠ [] := by
   unfold sshRepl at h
